@@ -693,8 +693,14 @@ class WaveShareNmea2000Gateway(AsyncIOClient):
         checksum = calculate_canbus_checksum(config_packet)
         config_packet.append(checksum)
         config_packet_bytes = bytes(config_packet)
-        self.writer.write(config_packet_bytes)
-        await self.writer.drain()
+        try:
+            self.writer.write(config_packet_bytes)
+            await self.writer.drain()
+        except Exception:
+            # The attempt fails and is retried (or given up after close()): release the port that was just
+            # opened, nothing else ever closes it.
+            self.writer.close()
+            raise
         self.logger.info(f"Sent config packet: {config_packet_bytes.hex()}")
 
     async def _receive_impl(self):
